@@ -344,7 +344,7 @@ func runC08(c *Ctx) {
 		// a return of Any{} under "recursive result is Any" where the recursive arg is an element of Or.Nodes
 		orAny := false
 		for _, r := range Returns(cs) {
-			mi, ok := r.Results[0].(*ssa.MakeInterface)
+			mi, ok := ReturnOperand(r, 0).(*ssa.MakeInterface)
 			if !ok || !strings.HasSuffix(mi.X.Type().String(), "pattern.Any") {
 				continue
 			}
@@ -404,7 +404,7 @@ func runC08(c *Ctx) {
 		var fns []*ssa.Function
 		fns = append(fns, cs)
 		for _, r := range Returns(cs) {
-			for x := range BackSlice(r.Results[0], SliceOpts{}) {
+			for x := range BackSlice(ReturnOperand(r, 0), SliceOpts{}) {
 				switch x := x.(type) {
 				case *ssa.MakeInterface:
 					if n, ok := types.Unalias(x.X.Type()).(*types.Named); ok {
@@ -607,7 +607,7 @@ func runC08(c *Ctx) {
 				}
 				isTrueRet := func(in ssa.Instruction) bool {
 					r, ok := in.(*ssa.Return)
-					return ok && !isBoolConst(r.Results[0], false)
+					return ok && !isBoolConst(ReturnOperand(r, 0), false)
 				}
 				if isTrueRet(blk.Instrs[0]) {
 					bad = true
@@ -630,7 +630,7 @@ func runC08(c *Ctx) {
 			return isClosure || isLoad, true
 		})
 		for i, r := range Returns(crs) {
-			if IsNilConst(r.Results[0]) {
+			if IsNilConst(ReturnOperand(r, 0)) {
 				continue
 			}
 			ok, p := MustPassEdges(crs, r, okEdges)
